@@ -48,6 +48,10 @@ def _xv_value(kind, enc, version=0):
         return bool(int(num // 4) % 2)
     if kind == "str":
         return "<" + enc + ">v%d" % version
+    if kind == "npstr":
+        # a numpy string scalar (what indexing a numpy array of labels gives)
+        import numpy as np
+        return np.str_("<" + enc + ">v%d" % version)
     if kind == "tuple2":
         return (num, num + 0.5)
     if kind == "tuple3":
